@@ -24,6 +24,10 @@ def oserr(code, path=None):
     return OSError(code, _os.strerror(code), path)  # constructs the right subclass
 
 
+class AccessBudgetExceeded(Exception):
+    """raised by the simulated kernel when the code under test keeps asking: the failed unwinding assertion of a 'terminates' claim"""
+
+
 class FakeFile:
     def __init__(self, k, path, data, binary):
         self.k, self.path, self.binary = k, path, binary
@@ -126,6 +130,7 @@ class Kernel:
         self.fault = Fault()
         self.naccess = 0
         self.naccess_total = 0
+        self.access_budget = 100000    # generic guard against a call that never stops asking; harnesses that claim termination set a tight bound
         self.shadows = sym.Shadows()
         self.clock_ticks, self.pagesize = clock_ticks, pagesize
         self._ntok = 0
@@ -164,6 +169,8 @@ class Kernel:
 
     def access(self, kind, path):
         self.naccess_total += 1
+        if self.access_budget is not None and self.naccess_total > self.access_budget:
+            raise AccessBudgetExceeded(f"more than {self.access_budget} OS accesses in one harness run (the call does not terminate?)")
         i = self.naccess
         f = self.fault
         if self._in_scope(path):
